@@ -1,8 +1,11 @@
 (* C06 — curves evaluate to their documented function, always within 0..255.
    This file holds only the property theorems; each is closed by [exact]. *)
-From Coq Require Import ZArith List Floats.
+From Coq Require Import ZArith List Floats Reals.
+From Flocq Require Import Core BinarySingleNaN.
+From Flocq Require PrimFloat.
 From F2G Require Import Go.GoFloat Model.Util Model.ControlLoop Model.Curves
-  Proofs.CurveFn Proofs.CurvePid.
+  Proofs.CurveFloat Proofs.CurveFn Proofs.CurvePid Proofs.CurveLin Proofs.CurveLinMono Proofs.CurvePidRange
+  Proofs.CurveSteps Proofs.CurveMono.
 Import ListNotations.
 Open Scope Z_scope.
 
@@ -48,6 +51,74 @@ Theorem C06_graph_is_tree : forall g rank fuel id e now st,
   exists t, unfold fuel g id = Some t /\ geval fuel g id e now st = eval t e now st.
 Proof. exact geval_tree. Qed.
 Print Assumptions C06_graph_is_tree.
+
+(* ---- linear curve, min/max form (|min|, |max| < 2^40 degrees) ---- *)
+(* range, for EVERY non-NaN float temperature (incl. +-Inf, 1e300, subnormals) *)
+Theorem C06_lin_minmax_range : forall c T, l_steps c = None -> lin_small c -> is_nan T = false ->
+  exists v, eval_lin c T = Val v /\ 0 <= v <= 255.
+Proof. exact lin_minmax_range. Qed.
+Print Assumptions C06_lin_minmax_range.
+
+(* ends, over the reals: T >= max*1000 -> 255;  T < max*1000 and T <= min*1000 -> 0 *)
+Theorem C06_lin_minmax_ends : forall c T, l_steps c = None -> lin_small c ->
+  BinarySingleNaN.is_finite (Flocq.IEEE754.PrimFloat.Prim2B T) = true ->
+  ((IZR (l_max c * 1000) <= B2R (Flocq.IEEE754.PrimFloat.Prim2B T))%R -> eval_lin c T = Val 255) /\
+  ((B2R (Flocq.IEEE754.PrimFloat.Prim2B T) < IZR (l_max c * 1000))%R ->
+   (B2R (Flocq.IEEE754.PrimFloat.Prim2B T) <= IZR (l_min c * 1000))%R -> eval_lin c T = Val 0).
+Proof. exact lin_minmax_ends. Qed.
+Print Assumptions C06_lin_minmax_ends.
+
+(* middle: the full closeness statement (kept visible, NOT proved; the driver's observer checks it
+   in exact rational arithmetic on every generated case):
+       -1 - 2^-40 < value - 255*(T - min*1000)/((max-min)*1000) < 2^-40 *)
+Definition C06_lin_minmax_mid_full : Prop :=
+  forall c T v, l_steps c = None -> lin_small c -> l_min c < l_max c ->
+  BinarySingleNaN.is_finite (Flocq.IEEE754.PrimFloat.Prim2B T) = true ->
+  (IZR (l_min c * 1000) < B2R (Flocq.IEEE754.PrimFloat.Prim2B T) < IZR (l_max c * 1000))%R ->
+  eval_lin c T = Val v ->
+  let r := (255 * (B2R (Flocq.IEEE754.PrimFloat.Prim2B T) - IZR (l_min c * 1000)) / IZR ((l_max c - l_min c) * 1000))%R in
+  (-1 - / 2 ^ 40 < IZR v - r < / 2 ^ 40)%R.
+(* proved part: the value is the truncation of the thrice-rounded ratio, in range and monotone *)
+Theorem C06_lin_minmax_mid_partial : forall c T1 T2, l_steps c = None -> lin_small c -> PrimFloat.leb T1 T2 = true ->
+  exists v1 v2, eval_lin c T1 = Val v1 /\ eval_lin c T2 = Val v2 /\ 0 <= v1 /\ v1 <= v2 /\ v2 <= 255.
+Proof. exact lin_minmax_mono. Qed.
+Print Assumptions C06_lin_minmax_mid_partial.
+
+(* ---- linear curve, steps form: proved cases (single step, at/below the first step, inside the
+   first segment = Round(float32(interpolation))); the general range statement stays open ---- *)
+Theorem C06_steps_partial_single : forall sensor x y T,
+  eval_lin (mkLin sensor 0 0 (Some [(x, y)])) T = Val (f2i (goRound y)).
+Proof. exact steps_single. Qed.
+Theorem C06_steps_partial_first : forall sensor x0 y0 x1 y1 r T,
+  PrimFloat.leb (PrimFloat.div T 1000) (i2f x0) = true ->
+  eval_lin (mkLin sensor 0 0 (Some ((x0, y0) :: (x1, y1) :: r))) T = Val (f2i (goRound y0)).
+Proof. exact steps_below_first. Qed.
+Theorem C06_steps_partial_segment : forall sensor x0 y0 x1 y1 r T,
+  let x := PrimFloat.div T 1000 in
+  PrimFloat.leb x (i2f x0) = false -> PrimFloat.leb (i2f x1) x = false -> PrimFloat.eqb x (i2f x0) = false ->
+  eval_lin (mkLin sensor 0 0 (Some ((x0, y0) :: (x1, y1) :: r))) T =
+  Val (f2i (goRound (to_f32 (PrimFloat.add y0 (PrimFloat.mul (Ratio x (i2f x0) (i2f x1)) (PrimFloat.sub y1 y0)))))).
+Proof. exact steps_first_segment. Qed.
+Print Assumptions C06_steps_partial_segment.
+Definition C06_steps_full : Prop := C06_steps_range_full.
+
+(* ---- C06_range: proved per construct (min/max leaves above, PID below, aggregates in
+   C06_fn_range) and, by structural induction to any depth, for trees of sum/max/min/average over
+   leaves that are total and in range (the range half of C07_tree).  The single statement over
+   ALL well-formed trees (difference/delta nodes, PID leaves with their state) stays open: *)
+Definition C06_range_full : Prop := range_full.
+Theorem C06_range_partial : forall t e now st, mono_tree t -> env_le_on t e e ->
+  exists v, eval t e now st = (Val v, st) /\ 0 <= v <= 255.
+Proof. exact tree_range. Qed.
+Print Assumptions C06_range_partial.
+
+(* ---- PID curve ---- *)
+Theorem C06_pid : forall c s m now st, s_val s = Some m ->
+  let rt := match lookup_pid (rt_pids st) (p_id c) with Some rt => rt | None => init_pidrt c end in
+  let loopv := snd (pid_term c rt m now) in
+  fst (eval_pid c s now st) = Val (pid_value loopv) /\ (is_nan loopv = false -> 0 <= pid_value loopv <= 255).
+Proof. exact pid_eval_value. Qed.
+Print Assumptions C06_pid.
 
 (* ---- PID curve: the full statement is FALSE of the code (D18) ---- *)
 Theorem C06_pid_nan_refuted : ~ C06_pid_full.
